@@ -1,13 +1,64 @@
-(* Props/C06.v – Script evaluation agrees with reference Script semantics (work in progress:
-   statements proved so far; see PARTIAL in tools/props/C06.py). *)
-From BV Require Import Common.Base Common.Tx Gen.ScriptConsts Gen.EvalConsts Model.Script Model.ScriptEval Spec.ScriptRef Proofs.ScriptEval.
+(* Props/C06.v – Script evaluation agrees with reference Script semantics.
+   MODEL = Model/ScriptEval.v (scripteval.py as written), SPEC = Spec/ScriptRef.v (reference
+   semantics).  Both are parametric in the signature-check oracle and the hash functions.
+   The full statement is
+     forall script st flags,  eval_script (rev st) script
+        = match eval_ref st script with Some fin => Ok (rev fin) | None => Err EvalErr end
+   Proved here: the statement for every script whose operations include no
+   CHECKSIG / CHECKMULTISIG (all pushes, flow control in executed and unexecuted branches,
+   stack manipulation, 4-byte arithmetic and comparison, hashes, CODESEPARATOR, NOPs,
+   disabled and reserved opcodes, all four limits) – [C06_eval_partial_nosig]; the signature
+   opcodes are covered by the correspondence run only (see PARTIAL in tools/props/C06.py). *)
+From BV Require Import Common.Base Common.Tx Common.ScriptFlags Gen.ScriptConsts Gen.EvalConsts
+  Model.Script Model.ScriptEval Spec.Script Spec.ScriptRef Proofs.ScriptEval.
 
+(* the regenerated limits are the reference ones *)
 Theorem C06_limits :
   MAX_SCRIPT_SIZE = 10000 /\ MAX_SCRIPT_ELEMENT_SIZE = 520 /\ MAX_SCRIPT_OPCODES = 201 /\
   MAX_STACK_ITEMS = 1000 /\ MAX_NUM_SIZE = 4.
 Proof. exact limits_ok. Qed.
-Theorem C06_disabled : forall op, 0 <= op < 256 -> mem op DISABLED_OPCODES = disabled op.
-Proof. exact disabled_ok. Qed.
+(* every opcode value: the always-failing set, and the branch of the elif chain it selects,
+   are those of the reference opcode table *)
+Theorem C06_opcode_table : forall op, 0 <= op < 256 ->
+  mem op DISABLED_OPCODES = disabled op /\ kind_of op = ref_kind op.
+Proof. intros op H. split; [exact (disabled_ok op H) | exact (kind_ok op H)]. Qed.
+
+(* one operation of the loop: same effect on the (reversed) stacks, altstack, condition stack
+   and counter, EvalScriptError exactly when the reference fails *)
+Theorem C06_step_partial_nosig : forall checksig ripemd160 sha1 sha256 fl,
+  (forall x, small (ripemd160 x) /\ small (sha1 x) /\ small (sha256 x)) ->
+  forall scriptIn r pb op d idx rest code,
+  Spec.Script.get_op code = Ok (op, d, rest) -> inv r -> nosig op = true ->
+  match ref_step checksig ripemd160 sha1 sha256 fl op d rest r with
+  | Some r' => (exists pb', step checksig ripemd160 sha1 sha256 fl scriptIn (abs r pb) (mk_sop op d idx) = Ok (abs r' pb')) /\ inv r'
+  | None => step checksig ripemd160 sha1 sha256 fl scriptIn (abs r pb) (mk_sop op d idx) = Err EvalErr
+  end.
+Proof. exact step_sim. Qed.
+
+(* EvalScript: fails exactly when the reference fails – and then with EvalScriptError, no
+   other exception –, otherwise leaves exactly the reference's final stack; for every
+   script without signature-checking operations, every initial stack (items shorter than
+   2^31 bytes, fewer than 2^31 of them), every flag set, any hash functions with outputs
+   shorter than 2^31 bytes *)
+Theorem C06_eval_partial_nosig : forall checksig ripemd160 sha1 sha256 fl,
+  (forall x, small (ripemd160 x) /\ small (sha1 x) /\ small (sha256 x)) ->
+  forall scriptIn st, Forall small st -> lenZ st < 2^31 ->
+  forallb (fun o => nosig (sop_opcode o)) (fst (ref_parse scriptIn)) = true ->
+  eval_script checksig ripemd160 sha1 sha256 fl (rev st) scriptIn
+  = match eval_ref checksig ripemd160 sha1 sha256 fl st scriptIn with Some fin => Ok (rev fin) | None => Err EvalErr end.
+Proof. exact eval_nosig. Qed.
+
+Example C06_nonvacuous :
+  let cs := fun _ _ _ : bytes => false in let h := fun x : bytes => x in
+  let fl := {| f_p2sh := true; f_nulldummy := false; f_cleanstack := false; f_discourage_nops := false |} in
+  (* 2 3 ADD 5 EQUAL ; IF 1 ELSE RETURN ENDIF *)
+  let s := [x52; x53; x93; x55; x87; x63; x51; x67; x6a; x68] in
+  forallb (fun o => nosig (sop_opcode o)) (fst (ref_parse s)) = true /\
+  eval_ref cs h h h fl [] s = Some [[x01]] /\ eval_script cs h h h fl [] s = Ok [[x01]] /\
+  eval_ref cs h h h fl [] [x6a] = None /\ eval_script cs h h h fl [] [x6a] = Err EvalErr.
+Proof. vm_compute. repeat split; reflexivity. Qed.
 
 Print Assumptions C06_limits.
-Print Assumptions C06_disabled.
+Print Assumptions C06_opcode_table.
+Print Assumptions C06_step_partial_nosig.
+Print Assumptions C06_eval_partial_nosig.
